@@ -1,13 +1,24 @@
 (* C10 -- I/O errors never cost acknowledged data.
 
    The statement is `fault_safety_stmt` of Wal/FaultHist.v, proved in full
-   (Wal/FaultThm.v): for every configuration and every history of calls in which
-   one I/O action of a call fails -- ANY action of ANY call: segment write, fsync,
-   file creation, metadata commit (StoreLogs incl. the reset of the empty first
-   segment, the background rotation a call waits for, DeleteRange head and tail
-   truncation incl. the forced seal, stable Set, Open incl. the completion of an
-   interrupted rotation); deletions are exempt, see Model.io -- with process
-   restarts and Close/Open cycles in between:
+   (Wal/FaultThm.v): for every configuration and every history of calls
+   `FOp f fx o` with process restarts and Close/Open cycles in between, where
+     f  = Some k: the k-th I/O action of the call fails -- ANY action of ANY call:
+          segment write, fsync, file creation, metadata commit, stable write
+          (StoreLogs incl. the reset of the empty first segment, the background
+          rotation a call waits for, DeleteRange head and tail truncation incl. the
+          forced seal, stable Set, Open incl. the completion of an interrupted
+          rotation);
+     fx = the fault modes in force while that fault is armed (a call that is to see
+          only a mode carries a count it never reaches):
+          fx_del    every segment-file deletion fails (error, the file stays; the WAL
+                    ignores the error; the clean-up of a later Open removes the file,
+                    and may fail again)
+          fx_list   the directory listing of Open fails: Open returns an error after
+                    MetaStore.Load, the next Open succeeds
+          fx_leave  a file creation hit by the counted fault leaves the empty,
+                    unallocated file behind;
+   the following hold:
      (a) readers of the running process always see exactly the state in which the
          calls that returned nil are applied and those that returned an error are not;
      (b) a call that returned nil was acceptable to the contiguous-log specification;
@@ -16,12 +27,18 @@
          applied as a whole (in place, or -- for a failed StoreLogs whose complete
          bytes sit behind the last commit of the tail file -- at restart time) or not
          at all.
+   A failed action other than a creation under fx_leave has no effect on the disk
+   (Model.io); the model does not cover an fsync or metadata commit that reports an
+   error although the data reached the disk.
    Proof architecture: lock-step simulation of the faulty run against the fault-free
    run on a normalised disk (Wal/FaultSim*.v), which transfers the per-action-prefix
    disk invariants of the crash development (Wal/Crash*.v) to the disk a failed call
-   leaves; an invariant FInv (Wal/FaultInv.v) over the process states reachable with
-   faults (stale unsynced batch behind a rolled-back writer; sealed but unrotated
-   tail; metadata ahead of a WAL that refuses writes; closed handle). *)
+   leaves (a run whose deletions all fail is the fault-free run stopped before its
+   trailing deletions); an invariant FInv (Wal/FaultInv.v) over the process states
+   reachable with faults (stale unsynced batch behind a rolled-back writer or in a
+   file that could not be deleted; sealed but unrotated tail; metadata ahead of a WAL
+   that refuses writes; closed handle); Wal/FaultNames.v: a file the metadata does
+   not list is never listed again. *)
 From RW Require Import Base.Bytes Fmt.Codec Fmt.Frame Wal.Model Wal.Spec Wal.Hist Wal.FaultHist Wal.FaultFacts
   Wal.FaultInv Wal.FaultThm Wal.FaultCor Wal.CrashExamples Wal.CrashExamplesFacts Wal.FaultExamples Wal.FaultExamplesFacts
   Gen.Constants.
@@ -53,13 +70,13 @@ Theorem C10_nominal_view :
 Proof. exact nominal_view. Qed.
 Print Assumptions C10_nominal_view.
 
-(* after any such history, whatever fault is armed for it: if StoreLogs returns nil,
+(* after any such history, whatever fault and fault modes are armed for it: if StoreLogs returns nil,
    GetLog returns every one of its entries *)
 Theorem C10_acked_visible_in_process :
-  forall c steps s0 f ls l, fault_hist_ok c steps -> initial c = Some s0 -> sop_ok (OStore ls) ->
+  forall c steps s0 f fx ls l, fault_hist_ok c steps -> initial c = Some s0 -> sop_ok (OStore ls) ->
     let h := fault_run c (fault_init s0) steps in
     st_closed (ss_wal (fs_s h)) = false ->
-    let '(r, s1) := step_model c (with_fault (fs_s h) f) (OStore ls) in
+    let '(r, s1) := step_model c (with_fault (fs_s h) f fx) (OStore ls) in
     r = ROk -> In l ls -> fst (get_log (ss_wal s1) (l_index l) (ss_env s1)) = RLog l.
 Proof. exact acked_visible_in_process. Qed.
 Print Assumptions C10_acked_visible_in_process.
@@ -67,20 +84,20 @@ Print Assumptions C10_acked_visible_in_process.
 (* if StoreLogs returns an error, GetLog answers every index from the state before the
    call: in particular none of its entries beyond the log is found *)
 Theorem C10_failed_store_invisible :
-  forall c steps s0 f ls i, fault_hist_ok c steps -> initial c = Some s0 -> sop_ok (OStore ls) ->
+  forall c steps s0 f fx ls i, fault_hist_ok c steps -> initial c = Some s0 -> sop_ok (OStore ls) ->
     let h := fault_run c (fault_init s0) steps in
     st_closed (ss_wal (fs_s h)) = false -> i < two64 ->
-    let '(r, s1) := step_model c (with_fault (fs_s h) f) (OStore ls) in
+    let '(r, s1) := step_model c (with_fault (fs_s h) f fx) (OStore ls) in
     r <> ROk ->
     result_eqb (res_class (fst (get_log (ss_wal s1) i (ss_env s1)))) (fst (step_spec (fs_nom h) (OGet i))) = true.
 Proof. exact failed_store_invisible. Qed.
 Print Assumptions C10_failed_store_invisible.
 
 Theorem C10_failed_store_not_found :
-  forall c steps s0 f ls l, fault_hist_ok c steps -> initial c = Some s0 -> sop_ok (OStore ls) ->
+  forall c steps s0 f fx ls l, fault_hist_ok c steps -> initial c = Some s0 -> sop_ok (OStore ls) ->
     let h := fault_run c (fault_init s0) steps in
     st_closed (ss_wal (fs_s h)) = false -> In l ls -> spec_get (sp_log (fs_nom h)) (l_index l) = None ->
-    let '(r, s1) := step_model c (with_fault (fs_s h) f) (OStore ls) in
+    let '(r, s1) := step_model c (with_fault (fs_s h) f fx) (OStore ls) in
     r <> ROk -> fst (get_log (ss_wal s1) (l_index l) (ss_env s1)) = RErrNotFound.
 Proof. exact failed_store_not_found. Qed.
 Print Assumptions C10_failed_store_not_found.
@@ -109,6 +126,27 @@ Theorem C10_failed_action_no_effect :
   forall a e e', io a e = (false, e') -> e_disk e' = e_disk e.
 Proof. exact io_fail_no_effect. Qed.
 Print Assumptions C10_failed_action_no_effect.
+
+Theorem C10_failed_create_leaves_at_most_an_empty_file :
+  forall si e e', seg_create si e = (None, e') ->
+    e_disk e' = e_disk e \/ e_disk e' = apply_act (e_disk e) (ACreate (name_of si) 0).
+Proof. exact failed_create_effect. Qed.
+Print Assumptions C10_failed_create_leaves_at_most_an_empty_file.
+
+Theorem C10_failed_delete_keeps_file :
+  forall n e e', io (ADelete n) e = (false, e') ->
+    e_disk e' = e_disk e /\ e_fault e' = e_fault e /\ armed e = true /\ fx_del (e_fx e) = true.
+Proof. exact failed_delete_effect. Qed.
+Print Assumptions C10_failed_delete_keeps_file.
+
+Theorem C10_failed_listing_fails_open :
+  forall c e,
+    negb (FirstExternalCodecID <=? c_codec c) && negb (c_codec c =? BinaryCodecID) = false ->
+    dk_inited (e_disk e) = true -> armed e = true -> fx_list (e_fx e) = true ->
+    open_wal c e = (OErr RErrIO, list_failed e) /\ e_disk (list_failed e) = e_disk e /\
+    fx_list (e_fx (list_failed e)) = false.
+Proof. exact failed_listing_fails_open. Qed.
+Print Assumptions C10_failed_listing_fails_open.
 
 Theorem C10_failed_append_rolls_back :
   forall w ls e r w' e', seg_append w ls e = (r, w', e') -> r <> ROk -> w' = w.
@@ -187,12 +225,63 @@ Example C10_ex_misc :
   (ff_ok cfg256 fh_misc, ff_first cfg256 fh_misc, ff_kv cfg256 fh_misc [107]) = (true, 1, [1]).
 Proof. vm_compute. reflexivity. Qed.
 
+(* F: every deletion of a head truncation fails: the truncation is applied (first index 5),
+   the 3 files stay; the next append rotates (4 files); the clean-up of an Open under the
+   same mode fails again (4 files); the clean Open after it removes them (2 files) *)
+Example C10_ex_delete_fails :
+  (ff_ok cfg128 fh_delete_fails, ff_nfiles cfg128 (firstn 5 fh_delete_fails), ff_nfiles cfg128 (firstn 6 fh_delete_fails),
+   ff_first cfg128 (firstn 6 fh_delete_fails), ff_nfiles cfg128 (firstn 9 fh_delete_fails),
+   ff_nfiles cfg128 (firstn 12 fh_delete_fails), ff_first cfg128 fh_delete_fails, ff_last cfg128 fh_delete_fails)
+  = (true, 3%nat, 3%nat, 5, 4%nat, 2%nat, 5, 7).
+Proof. vm_compute. reflexivity. Qed.
+
+(* F': the old tail file stays when the empty first segment is replaced; a restart removes it *)
+Example C10_ex_reset_delete_fails :
+  (ff_ok cfg256 fh_reset_delete_fails, ff_nfiles cfg256 (firstn 1 fh_reset_delete_fails), ff_nfiles cfg256 fh_reset_delete_fails,
+   ff_first cfg256 fh_reset_delete_fails, ff_last cfg256 fh_reset_delete_fails)
+  = (true, 2%nat, 1%nat, 5, 6).
+Proof. vm_compute. reflexivity. Qed.
+
+(* G: the directory listing of Open fails: an error, every call fails, the next Open succeeds *)
+Example C10_ex_list_fails :
+  (ff_ok cfg128 fh_list_fails, ff_flags cfg128 (firstn 3 fh_list_fails),
+   ff_result_fx cfg128 (firstn 2 fh_list_fails) never fx_listing OReopen,
+   ff_result cfg128 (firstn 3 fh_list_fails) None OLast,
+   ff_last cfg128 fh_list_fails, ff_term cfg128 fh_list_fails 3)
+  = (true, (false, true), RErrIO, RErrClosed, 3, Some 1).
+Proof. vm_compute. reflexivity. Qed.
+
+(* H: as B, but the failed creation leaves the empty file (2 files instead of 1): the next
+   Open adopts it as the tail, the truncation is applied and index 3 can be rewritten *)
+Example C10_ex_trunc_create_leaves :
+  (ff_ok cfg256 fh_trunc_create_leaves, ff_flags cfg256 (firstn 2 fh_trunc_create_leaves),
+   ff_nfiles cfg256 (firstn 1 fh_trunc_create_leaves), ff_nfiles cfg256 (firstn 2 fh_trunc_create_leaves),
+   ff_nfiles cfg256 (firstn 2 fh_trunc_create_fails),
+   ff_last cfg256 (firstn 4 fh_trunc_create_leaves), ff_last cfg256 (firstn 6 fh_trunc_create_leaves),
+   ff_term cfg256 fh_trunc_create_leaves 3)
+  = (true, (true, false), 1%nat, 2%nat, 1%nat, 3, 2, Some 5).
+Proof. vm_compute. reflexivity. Qed.
+
+(* H': the file of a rotation is left behind by the failed creation; a restart adopts it *)
+Example C10_ex_rotate_create_leaves :
+  (ff_ok cfg128 fh_rotate_create_leaves, ff_flags cfg128 (firstn 3 fh_rotate_create_leaves),
+   ff_nfiles cfg128 (firstn 2 fh_rotate_create_leaves), ff_nfiles cfg128 (firstn 3 fh_rotate_create_leaves),
+   ff_last cfg128 (firstn 5 fh_rotate_create_leaves), ff_last cfg128 fh_rotate_create_leaves,
+   ff_term cfg128 fh_rotate_create_leaves 3)
+  = (true, (true, false), 1%nat, 2%nat, 2, 3, Some 1).
+Proof. vm_compute. reflexivity. Qed.
+
 (* the example histories satisfy the hypotheses of the theorem *)
 Example C10_ex_hyps :
   fault_hist_ok cfg256 fh_fsync_then_shorter /\ fault_hist_ok cfg256 fh_fsync_then_restart /\
   fault_hist_ok cfg256 fh_trunc_create_fails /\ fault_hist_ok cfg128 fh_rotation_commit_fails /\
-  fault_hist_ok cfg128 fh_fault_in_open /\ fault_hist_ok cfg256 fh_misc.
+  fault_hist_ok cfg128 fh_fault_in_open /\ fault_hist_ok cfg256 fh_misc /\
+  fault_hist_ok cfg128 fh_delete_fails /\ fault_hist_ok cfg256 fh_reset_delete_fails /\
+  fault_hist_ok cfg128 fh_list_fails /\ fault_hist_ok cfg256 fh_trunc_create_leaves /\
+  fault_hist_ok cfg128 fh_rotate_create_leaves.
 Proof.
   exact (conj fh_fsync_then_shorter_ok (conj fh_fsync_then_restart_ok (conj fh_trunc_create_fails_ok
-         (conj fh_rotation_commit_fails_ok (conj fh_fault_in_open_ok fh_misc_ok))))).
+         (conj fh_rotation_commit_fails_ok (conj fh_fault_in_open_ok (conj fh_misc_ok
+         (conj fh_delete_fails_ok (conj fh_reset_delete_fails_ok (conj fh_list_fails_ok
+         (conj fh_trunc_create_leaves_ok fh_rotate_create_leaves_ok)))))))))).
 Qed.
